@@ -173,11 +173,6 @@ class CaseRunner:
             return 'kseq'
         return 'nonfunctional_symbol'
 
-    def unsupported_heads(self, st):
-        """head classes of the values the toolkit does not document as supported, in the order of the substitution
-        (functional assumptions are generated value by value in that order, so the first one is the one that is refused)"""
-        return [h for h in (self.head_class(v) for v in st.sigma.values()) if h != 'supported']
-
     # ------------------------------------------------------------------- (ii) conversion of rules
     def convert_definition(self):
         ctx, R, c = self.ctx, self.R, self.case
@@ -340,18 +335,23 @@ class CaseRunner:
         return subs
 
     # ----------------------------------------------------------------------- (i) driving a trace
-    def classify_refusal(self, tr, i, exc):
+    def classify_refusal(self, tr, i, exc, sem=None, subs=None):
         site = site_of(exc)
         st = tr.steps[i]
         feature = 'other'
-        heads = self.unsupported_heads(st)
         if site.endswith('add_claim') and gk.first_repeat(gk.Trace(tr.init, tr.steps[:i + 1]), self.case.rules) == i:
             feature = 'repeated_step'
-        elif 'collect_functional_axioms' in site and heads:
-            feature = 'subst_value_' + heads[0]
+        elif 'collect_functional_axioms' in site:
+            # which value is it that the toolkit cannot make a functional assumption for?  ask it value by value
+            for v, conv in zip(st.sigma.values(), (subs or {}).values()):
+                try:
+                    self.R.ExecutionProofExp.collect_functional_axioms(sem, {0: conv})
+                except Exception:
+                    feature = 'subst_value_' + self.head_class(v)
+                    break
         return site, feature
 
-    def judge_outcome(self, tr, path, refused_at, exc, accepted_bad):
+    def judge_outcome(self, tr, path, refused_at, exc, accepted_bad, sem=None, subs=None):
         """Compares where the real code refused with where the reference says it must.  Returns True if the trace behaved."""
         ctx = self.ctx
         if tr.kind == 'mismatch':
@@ -370,7 +370,7 @@ class CaseRunner:
         if refused_at is None:
             return True
         # a step that does start where the previous one ended was refused
-        site, feature = self.classify_refusal(tr, refused_at, exc)
+        site, feature = self.classify_refusal(tr, refused_at, exc, sem, subs[refused_at] if subs and refused_at < len(subs) else None)
         if feature == 'subst_value_nonfunctional_symbol':
             # the toolkit can only assume functionality of symbols declared functional: refusal is the documented behaviour
             ctx.count('refused_nonfunctional_head')
@@ -464,7 +464,7 @@ class CaseRunner:
 
         # ---- path A: step by step
         pe, done, refused_at, exc, accepted_bad = self.drive_steps(sem, tr, subs)
-        ok = self.judge_outcome(tr, 'rewrite_event', refused_at, exc, accepted_bad)
+        ok = self.judge_outcome(tr, 'rewrite_event', refused_at, exc, accepted_bad, sem, subs)
         if ok:
             if self.compare_claims(pe, tr, done, 'rewrite_event'):
                 if tr.kind == 'matching':
@@ -541,7 +541,7 @@ class CaseRunner:
             # from_proof_hints takes the starting configuration from the first hint; the LLVM trace's initial configuration
             # IS that hint's configuration_before, so the mismatch is visible to it
             pass
-        ok = self.judge_outcome(tr, 'from_proof_hints', refused_at, exc, accepted_bad)
+        ok = self.judge_outcome(tr, 'from_proof_hints', refused_at, exc, accepted_bad, sem, subs)
         if ok and pe is not None and tr.kind == 'matching':
             if n == 0:
                 if type(pe) is not R.ProofExp and not isinstance(pe, R.ProofExp):
@@ -641,7 +641,7 @@ class CaseRunner:
                 refused_at, exc, pe = len(consumed) - 1, e, None
             else:
                 accepted_bad = tr.kind == 'mismatch'
-            ok = self.judge_outcome(tr, 'builder_from_proof_hints', refused_at, exc, accepted_bad)
+            ok = self.judge_outcome(tr, 'builder_from_proof_hints', refused_at, exc, accepted_bad, sem, [h.substitutions for h in hints])
             if ok and pe is not None and tr.kind == 'matching' and n >= 1:
                 if self.compare_claims(pe, tr, n, 'builder_from_proof_hints'):
                     ctx.count('builder_traces_accepted')
